@@ -31,23 +31,25 @@ impl Prop for C11 {
         "C11"
     }
     fn rule(&self) -> String {
-        "generated: receive-path inputs of all message types (frame grammar, reference-encoded valid packets, mutations, truncations, actionable control requests for every command, random bytes) x response buffer of 64-300 bytes pre-filled with a generated pattern x random context after a random history. Two contexts with identical configuration and history: one decodes, one processes. oracle: process_packet projects to the same (type, payload range) or the same error as decode_packet; Some(n) only for an accepted control message whose request bit is set, then n <= capacity and bytes beyond n unchanged; otherwise the whole buffer unchanged. non-trivial = the decoder accepted the input; distinct by hash".into()
+        "generated: receive-path inputs of all message types (frame grammar, reference-encoded valid packets, mutations, truncations, actionable control requests for every command, random bytes) x response buffer of 0-300 bytes (at least 64 for accepted control requests; empty and tiny buffers for everything that needs no response) pre-filled with a generated pattern x random context after a random history. Two contexts with identical configuration and history: one decodes, one processes. oracle: process_packet projects to the same (type, payload range) or the same error as decode_packet; Some(n) only for an accepted control message whose request bit is set, then n <= capacity and bytes beyond n unchanged; otherwise the whole buffer unchanged; when a response was written, the same input processed by a third identical context into a buffer of exactly that length gives the same result and bytes. non-trivial = the decoder accepted the input; distinct by hash".into()
     }
     fn assumptions(&self) -> Vec<String> {
-        vec!["not demanded: that every accepted request is answered; the content of the response (C12-C15)".into(), "cases in which either call panics are left to C10".into()]
+        vec!["not demanded: that every accepted request is answered; the content of the response (C12-C15)".into(), "cases in which decode_packet itself panics are left to C10; a panic of process_packet on an input that decode_packet handles is reported here as well".into()]
     }
     fn strategy(&self, _tier: Tier) -> BoxedStrategy<Case> {
         (
             prop_oneof![4 => gen::recv_input(), 2 => gen::ref_valid_packet(), 2 => gen::actionable_request()],
-            gen::ctx_cfg(),
+            gen::ctx_cfg_extreme(),
             prop_oneof![2 => Just(Vec::new()).boxed(), 1 => gen::prior_history(4)],
-            64u16..=300,
+            // response buffers of every size, including empty and tiny ones (see run())
+            prop_oneof![4 => 64u16..=300, 1 => 0u16..64, 1 => Just(0u16), 1 => 256u16..=300],
             any::<u8>(),
             any::<u8>(),
+            0u8..8,
         )
-            .prop_map(|(bytes, cfg, mut hist, cap, fill, stride)| {
+            .prop_map(|(bytes, cfg, mut hist, cap, fill, stride, k)| {
                 // receive flow: the length probe is called on the same bytes first
-                if bytes.len() % 4 == 1 {
+                if k == 0 {
                     hist.push(Op::GetLength { bytes: bytes.clone() });
                 }
                 Case { bytes, cfg, hist, cap, fill, stride }
@@ -61,7 +63,7 @@ impl Prop for C11 {
         }
     }
     fn required_labels(&self) -> Vec<&'static str> {
-        vec!["control_request", "control_response", "pci", "iana", "spdm", "secured", "rejected", "with_history"]
+        vec!["control_request", "control_response", "pci", "iana", "spdm", "secured", "rejected", "with_history", "small_response_buffer", "exact_fit_rerun"]
     }
     fn enumerate(&self, tier: Tier, shard: usize, nshards: usize, f: &mut dyn FnMut(Case)) {
         let cfg = CtxCfg { addr: 0x23, msg_types: vec![0x7E, 0x05], vendors: vec![(0, 0x1234, 0xAB), (1, 0x00C0FFEE, 9)] };
@@ -106,16 +108,47 @@ impl Prop for C11 {
             let _ = sut::apply_op(&mut p, op);
         }
         let dec = sut::decode(&a, b);
-        let before = prefill(case.cap as usize, case.fill, case.stride);
+        // a buffer shorter than 64 bytes is only used for inputs that are not
+        // accepted control requests (which need no response buffer at all); C10's
+        // precondition for requests is a buffer of at least 64 bytes
+        let is_req = matches!(f.verdict, Verdict::Accept { ty: 0, .. }) && f.rq;
+        let cap = if is_req && case.cap < 64 { 64 } else { case.cap } as usize;
+        if cap < 64 {
+            r.label("small_response_buffer");
+        }
+        let before = prefill(cap, case.fill, case.stride);
         let mut buf = before.clone();
         let pr = sut::process(&p, b, &mut buf);
-        if dec.is_panic() || pr.dec.is_panic() {
+        if dec.is_panic() {
             return r; // C10
+        }
+        if let Dec::Panic(m) = &pr.dec {
+            // decoding alone returns a result, processing does not report the same: it panics
+            // (C10 reports the panic as such, too)
+            let class = super::c09::class_of(&f, b);
+            r.fail(format!("C11:process_panicked:{}", class), format!("{}: decode_packet gives {}, process_packet panics: {}", hex(b), dec.brief(), m));
+            return r;
         }
         r.nontrivial = dec.is_ok();
         let class = super::c09::class_of(&f, b);
         if pr.dec != dec {
             r.fail(format!("C11:disagree:{}", class), format!("{}: decode_packet gives {}, process_packet gives {}", hex(b), dec.brief(), pr.dec.brief()));
+        }
+        // a response buffer that fits the response exactly gives the same answer
+        if let (Some(n), true) = (pr.resp, is_req) {
+            if n <= buf.len() && n < cap {
+                r.label("exact_fit_rerun");
+                let s3 = CtxStore::new(&case.cfg);
+                let mut q = s3.ctx();
+                for op in &case.hist {
+                    let _ = sut::apply_op(&mut q, op);
+                }
+                let mut exact = prefill(n, case.fill, case.stride);
+                let pe = sut::process(&q, b, &mut exact);
+                if pe.dec != dec || pe.resp != Some(n) || exact[..] != buf[..n] {
+                    r.fail(format!("C11:exact_fit_response_buffer:{}", class), format!("{}: with a {}-byte response buffer process_packet gives {} / {:?}; with a buffer of exactly {} bytes it gives {} / {:?}", hex(b), cap, pr.dec.brief(), pr.resp, n, pe.dec.brief(), pe.resp));
+                }
+            }
         }
         match pr.resp {
             Some(n) => {
